@@ -278,6 +278,11 @@ func init() {
 			raceBin = self // no detector: verdict comparison only
 			meta.Histogram["no race detector binary"] = 1
 		}
+		if old, _ := filepath.Glob(filepath.Join(outDir, "race.log.*")); old != nil {
+			for _, f := range old {
+				os.Remove(f) // reports of an earlier run
+			}
+		}
 		// one child over all cases (the detector slows execution ~10x; cases are small)
 		fn := filepath.Join(outDir, "c15_cases.json")
 		b, _ := json.Marshal(map[string]any{"cases": cases})
